@@ -59,7 +59,7 @@ def gen_pool_case(ctx, rng, i, tag, retry=None, enqueue_fn_ok=True, return_resul
     refuse = None
     if enqueue_fn_ok and rng.random() < 0.25:
         refuse = [[rng.randrange(nw), x] for x in inputs if rng.random() < 0.3]
-    pol, knobs = draw_env(rng, tcp=remote)
+    pol, knobs = draw_env(rng, tcp=remote, adversarial_ok=True)
     return {'kind': 'pool', 'workers': workers, 'inputs': inputs, 'poison': poison, 'faults': faults, 'refuse': refuse,
             'extra_pending': rng.choice([1, 2]) if directed_late else rng.choice([0, 0, 1, 2]), 'retry': rng.choice([True, True, False]) if retry is None else retry,
             'return_results': rng.choice([True, True, True, False]) if return_results is None else return_results,
